@@ -34,6 +34,10 @@ func (s Sample) Val() float64 {
 		return math.Float64frombits(value.StaleNaN)
 	case "nan":
 		return math.NaN()
+	case "nan2": // a NaN with another bit pattern (sign bit set, no payload) - neither math.NaN() nor the staleness marker
+		return math.Float64frombits(0xFFF8000000000000)
+	case "nz": // negative zero
+		return math.Copysign(0, -1)
 	case "pinf":
 		return math.Inf(1)
 	case "ninf":
